@@ -195,7 +195,15 @@ def f_run(arg):
     pr = psutil.Process(p.pid)
     closed = []
 
+    died = []
+
     def apply(world, dev, kind, subj, pid):
+        if dev == "die":
+            # the process itself exits and is reaped at this point of the scan
+            if p.pid in world.procs:
+                world.vanish(p.pid)
+                died.append(True)
+            return
         fd = int(dev.split(":")[1])
         if fd in p.fds:
             del p.fds[fd]
@@ -208,6 +216,20 @@ def f_run(arg):
     must, _ = ref_open_files(w, {fd: v for fd, v in F_TABLE.items() if fd not in closed})
     allm, _ = ref_open_files(w, F_TABLE)
     bad = []
+    if died:
+        # the whole listing (it was complete before the process went) or NoSuchProcess -- never a part of it
+        if out[0] == "exc" and out[1] == "NoSuchProcess":
+            pass
+        elif out[0] != "ok":
+            bad.append(("open_files-raised-when-the-process-exits:%s" % out[1], "%r (plan %r)" % (out, plan)))
+        else:
+            got = freeze(out[1])
+            missing = [e[1] for e in allm if not any(matches(e, g) for g in got)]
+            if missing or len(got) != len(allm):
+                bad.append(("open_files:part-of-the-listing-of-a-process-that-exited-during-the-scan",
+                            "process exited during the scan (plan %r): got %r, which lacks fds %r -- neither the listing it had nor NoSuchProcess"
+                            % (plan, got, missing)))
+        return {"accesses": hook.accesses, "bad": bad}
     if out[0] != "ok":
         bad.append(("open_files-raised-when-fd-closes:%s" % out[1], "open_files() raised %r when fds %r closed during the scan (plan %r)"
                     % (out, closed, plan)))
@@ -230,7 +252,7 @@ def f_alts(accesses, i):
     if pid is None or not isinstance(subj, str):
         return []
     # an fd may close before any access that inspects it (or any other fd) later
-    return ["close:%d" % fd for fd in F_TABLE]
+    return ["close:%d" % fd for fd in F_TABLE] + ["die"]
 
 
 def f_part(ctx, bound):
